@@ -260,7 +260,8 @@ class Merger(object):
         n_channels_l = [len(arr) for arr in _load_multiple_files('channel_map.npy', self.subdirs)]
         offsets_l = {
             'pc_feature_ind.npy': [sum(n_channels_l[:i]) for i in range(len(self.subdirs))],
-            'template_feature_ind.npy': self.channel_offsets,
+            # template_feature_ind contains template indices.
+            'template_feature_ind.npy': self.template_offsets,
         }
         for fn in template_data:
             arrays = _load_multiple_files(fn, self.subdirs)
